@@ -391,7 +391,13 @@ class LogicalType(type):  # noqa
 
             # 2. try to transform in strict mode
             if not context.options.no_data_loss or not context.options.no_explicit_cast:
-                strict_options = utype.Options(no_data_loss=True, no_explicit_cast=True)
+                # a member either fits under the stricter rules or the stage moves on: the tolerant element
+                # policies (exclude / preserve) belong to the last, lenient stage, otherwise an element that
+                # only needs a conversion is dropped (or kept unconverted) here as if it were invalid
+                strict_options = utype.Options(
+                    no_data_loss=True, no_explicit_cast=True,
+                    invalid_items=utype.Options.THROW, invalid_keys=utype.Options.THROW, invalid_values=utype.Options.THROW
+                )
 
                 for con in cls.args:
                     with context.enter(cls.combinator, options=strict_options) as new_context:
@@ -407,7 +413,10 @@ class LogicalType(type):  # noqa
             # 3. try to transform with no data loss
             # e.g. Union[str, List[str]] -> [1, 2] -> ['1', '2']
             if not context.options.no_data_loss and not context.options.no_explicit_cast:
-                no_loss_options = utype.Options(no_data_loss=True)
+                no_loss_options = utype.Options(
+                    no_data_loss=True,
+                    invalid_items=utype.Options.THROW, invalid_keys=utype.Options.THROW, invalid_values=utype.Options.THROW
+                )
 
                 for con in cls.args:
                     with context.enter(cls.combinator, options=no_loss_options) as new_context:
